@@ -60,6 +60,8 @@ func ghostIntrinsicHeaps(fn *ssa.Function) []string {
 		return []string{"G:wr"}
 	case "verifTokPos":
 		return []string{"G:xdpos"}
+	case "verifHeight":
+		return []string{"Mdom:map[string]interface{}", "Msel:map[string]interface{}"}
 	}
 	return nil
 }
@@ -93,6 +95,8 @@ func (c *FnCtx) ghostIntrinsic(fr *Frame, st *State, fn *ssa.Function, args []*T
 			unsupported("verifRangeCount: no map-range loop #%v known at this point", k)
 		}
 		return []*Term{c.getCell(st, c.curFrame.iterByLoop[int(k)].count)}, true
+	case "verifHeight":
+		return []*Term{c.height(st, args[0])}, true
 	case "verifIsNaN":
 		return []*Term{ts.UF("f64!isnan", SBool, args[0])}, true
 	case "verifIsInf":
